@@ -86,6 +86,46 @@ def special(v, d, drv, seed, modes=SPECIAL, reps=1):
     v.cov["samples"].append(["fixed schedules: " + ", ".join(modes)])
 
 
+def keepalive(v, d, seed, tier, only=None):
+    """connection loss without a reset (KeepAlive.tla): every scenario of modes / dark path / data plan on two real
+    connection.Conn ends through a forwarder that can go dark; stop times against the specification"""
+    drv = vlib.build("codecdrv")
+    mk = vlib.tlc_mc(d, "KeepAlive.tla", "KeepAlive.cfg", timeout=300)
+    vlib.require_mc_ok(mk, "KeepAlive (no spurious drop, a dead peer is noticed within the timeout)")
+    v.cov["keepalive_states"] = mk["distinct"]
+    if only is None:
+        cases, w = vlib.tlc_enumerate(d, "KeepAliveMC.tla", "KeepAliveMC.cfg", timeout=300)
+        frames = [b[0]["frame"] for b in cases]
+    else:
+        frames = [only]
+    reps = 1 if tier == "quick" else 5
+    nsc = min(16, len(frames))
+    scen = [dict(sc=80000 + i, seed=seed * 7919 + i, steps=[dict(a="KeepAlive", frame=f) for f in frames[i::nsc]], opt=dict(reps=reps)) for i in range(nsc)]
+    sf, tf = os.path.join(d, "ka.json"), os.path.join(d, "ka.ndjson")
+    json.dump(scen, open(sf, "w"))
+    out, w = vlib.run_driver(drv, sf, tf, ["-workers", str(nsc), "-stall", "60"], timeout=1200)
+    traces = vlib.read_traces(tf)
+    dead = [t for t in traces if t.get("dead")]
+    if dead:
+        raise vlib.Machinery("keep-alive scenarios did not run: %s" % dead[0].get("note"))
+    evs = [e for t in traces for e in t["ev"] if e.get("a") == "KeepAlive"]
+    bad = [e for e in evs if e.get("note")]
+    if bad:
+        raise vlib.Machinery("keep-alive scenario could not be set up: %s" % bad[0].get("note"))
+    acc, hw, stats = vlib.tlc_validate(d, "KeepAliveTrace.tla", "KeepAliveTrace.cfg", [[e] for e in evs], timeout=900)
+    v.cov["traces_validated_against_impl"] += len(evs)
+    for i, e in enumerate(evs):
+        if i not in acc:
+            f = e.get("frame", {})
+            v.classify(dict(cause="keepalive", frame=json.dumps(f, sort_keys=True)),
+                       "keep-alive, ends %s/%s, path dark after tick %s, data %s: the ends stopped at %s / %s tenths of a tick (-1: never), stop on request prompt=%s: not what KeepAlive.tla fixes" % (
+                           f.get("modeA"), f.get("modeB"), f.get("hole"), f.get("data"), e.get("stopA10"), e.get("stopB10"), e.get("ok")),
+                       dict(scenario=dict(sc=1, seed=seed, steps=[dict(a="KeepAlive", frame=f)], opt=dict(mode="keepalive")), event=e))
+    v.cov["keepalive_scenarios"], v.cov["keepalive_accepted"] = len(evs), len(acc)
+    v.cov["evaluations"] += len(evs)
+    log("keep-alive: %d scenarios on real connections in %.1fs, %d accepted" % (len(evs), w, len(acc)))
+
+
 def run(prop, tier, seed):
     v = vlib.Verdict(prop, tier, seed)
     d = vlib.scratch("c17-")
@@ -111,6 +151,7 @@ def run(prop, tier, seed):
     if not cu["violated"]:
         raise vlib.Machinery("Conn.tla with the unguarded receive rule no longer shows the stop that never completes")
     special(v, d, drv, seed, reps=1 if tier == "quick" else 5)
+    keepalive(v, d, seed, tier)
     n = 120 if tier == "quick" else 2500
     behs = []
     for s2 in range(1 if tier == "quick" else 3):
@@ -182,7 +223,9 @@ def replay(prop, path, seed):
     drv = vlib.build("fractaldrv")
     r = json.load(open(path))["replay"]
     s = r["scenario"]
-    if s.get("opt", {}).get("mode"):
+    if s.get("opt", {}).get("mode") == "keepalive":
+        keepalive(v, d, seed, "quick", only=s["steps"][0]["frame"])
+    elif s.get("opt", {}).get("mode"):
         special(v, d, drv, seed, modes=[s["opt"]["mode"]])
     else:
         scen = [s]
